@@ -27,13 +27,14 @@ from .values import (
 )
 from .errors import (
     JSError,
+    JSSyntaxError,
     JSTypeError,
     JSReferenceError,
     JSRangeError,
     MemoryLimitError,
     TimeLimitError,
 )
-from .regex import RegexTimeoutError
+from .regex import RegexTimeoutError, RegexStackOverflow
 
 
 # Script code run from inside a native (callbacks, accessors, conversions, call/apply)
@@ -309,6 +310,12 @@ class VM:
             self._handle_python_exception("ReferenceError", str(e))
         except JSRangeError as e:
             # Convert Python JSRangeError to JavaScript RangeError
+            self._handle_python_exception("RangeError", str(e))
+        except JSSyntaxError as e:
+            # A malformed regular expression, or source text given to eval()
+            self._handle_python_exception("SyntaxError", str(e))
+        except RegexStackOverflow as e:
+            # The backtracking stack of the regex matcher is exhausted
             self._handle_python_exception("RangeError", str(e))
 
     def _execute_opcode(self, op: OpCode, arg: Optional[int], frame: CallFrame) -> None:
